@@ -59,15 +59,34 @@ Clause of the property -> case family
                                     as "False if there is no response"; the code
                                     raises LssError - both accepted, True is not)
 
+Wider than "one device, LSSPos 0, zero reply latency" (the property names none of the three):
+  * a slave dict may carry "pos": the fastscan position LSSPos (0..3) the device is left with by
+    fastscan traffic it witnessed earlier (CiA 305: only BitCheck 0x80 resets it) -> "scan/stale-lsspos/*";
+  * a case may carry "others": further conformant devices on the same bus (configured ones, devices in
+    waiting state, a second unconfigured device that listens while the first one is being found ->
+    "commission/two-devices-listening"; devices that all answer one identify request, so that several
+    unread answers are queued when the next confirmed service starts -> "stale/answers-of-several-devices").
+    Every call is judged against the set of devices: a scan with exactly ONE participating device gets
+    the strict oracle (a), with none (b); with two or more unconfigured devices the property ("the one
+    unconfigured device") promises nothing and only "a success names a device that took part" is kept;
+    confirmed services are judged when at most one device is in configuration state (CiA 305 requires
+    that), against the answer that one device put on the bus;
+  * "latency_ms"/"timeout_ms": the replies of the devices reach the master from another thread after a
+    real latency below RESPONSE_TIMEOUT (as behind any real interface) -> "latency/*".
+
 Changed against DESIGN.md: a "late reply" fault and the stale identify reply
 were added (they exercise the anchor state `responses`); the strictness about
 LSSNext in 0..3 comes from CiA 305 parameter ranges.
 """
+import queue as _queue
+import threading
+import time as _time
+
 from hypothesis import strategies as st
 
 from harness.core import Discrepancy, Outcome
-from harness.ref_c18 import (CONFIGURATION, MASTER_ID, UNCONFIGURED, WAITING,
-                             RefLssSlave)
+from harness.ref_c18 import (CONFIGURATION, MASTER_ID, SLAVE_ID, UNCONFIGURED,
+                             WAITING, RefLssSlave)
 from harness.simbus import Frame, Hub
 
 PROPERTY = "C18"
@@ -84,12 +103,36 @@ RULE = ("case = one CiA 305 reference slave (128-bit identity, node-id, initial 
         "requests must be the ones the call's arguments imply; return value / LssError must follow from "
         "the reply the slave really put on the bus; slave state after scan/selective is 'configuration'. "
         "Non-trivial = a scan/selective/identity inquiry with an identity that is neither all-zero nor "
-        "all-one, or a fault reply, or a configure/activate/inquire-node-id with a non-zero operand; "
-        "distinct = canonical JSON of the case.")
+        "all-one, or a fault reply, or a configure/activate/inquire-node-id with a non-zero operand, or any "
+        "case with further devices / a reply latency; distinct = canonical JSON of the case. "
+        "Beyond one fresh device with zero latency: (1) slave field 'pos' = LSSPos 1..3 left behind by fastscan "
+        "traffic the device witnessed earlier (scan/stale-lsspos/*, enumerated over boundary identities + "
+        "Hypothesis); (2) 'others' = further conformant devices on the same bus: unconfigured devices that "
+        "follow the scan of the first one (commission/*-devices-listening), configured devices, devices that "
+        "all answer one identify request so that several unread answers are queued before the next service "
+        "(stale/answers-of-several-devices), Hypothesis histories on a bus of 2..3 devices with identities "
+        "agreeing in 0..4 leading parts; each call is judged against the set of devices as the call finds "
+        "it: fast_scan strict (found, identity, configuration state) when exactly one device is waiting and "
+        "unconfigured, failure-or-real-success when none, only 'a success names a participant' when several; "
+        "confirmed services judged when at most one device is in configuration state, against the answer that "
+        "device put on the bus; (3) latency_ms/timeout_ms: the devices' replies reach the master from another "
+        "thread after a real latency of 1..60 ms with RESPONSE_TIMEOUT = 250 ms (latency/*: commissioning "
+        "through fast scan and selective switch, all inquire/configure/store services, error code / wrong cs "
+        "/ silence, answers of two devices).")
 ASSUMPTIONS = [
     "RESPONSE_TIMEOUT=0 with inline delivery: a reply is either already queued when the master starts "
     "waiting or will not come; canopen.lss.time.sleep is a no-op in the harness process",
-    "exactly one slave on the bus (the property's 'the one unconfigured device')",
+    "the property's 'the one unconfigured device': a fast scan gets the strict oracle only when exactly one "
+    "device on the bus is in waiting state with an invalid node-id when the call begins; other devices "
+    "(configured, or in configuration state) may be present; scans with two or more unconfigured devices "
+    "only must not report an identity none of them has",
+    "confirmed services are judged only while at most one device is in configuration state (CiA 305)",
+    "LSSPos of a conformant slave may be 0..3 when a scan begins (only BitCheck 0x80 resets it)",
+    "latency family: real threads and real time; a reply latency <= 60 ms against RESPONSE_TIMEOUT = 250 ms; "
+    "a failing latency case is set aside (counted as excluded) when the harness measured that some reply "
+    "needed more than RESPONSE_TIMEOUT/2 from the device to the master's Network.notify - the machine, not "
+    "the library, was slow; multi-participant scans are not generated with a latency (duplicate answers "
+    "could overtake the next request because the library's pauses are no-ops here)",
     "'raise the LSS error' = an instance of canopen.lss.LssError; nothing else may escape",
     "a selective switch that nobody answers may return False or raise LssError (the docstring says False, "
     "the property is silent)",
@@ -131,15 +174,82 @@ def _prepare():
     return L
 
 
+class _DelayLine:
+    """What a device sends reaches the bus `latency` seconds later, from another thread (like the
+    receive thread of any real interface).  `max_delay` is the longest time that really passed between
+    a device handing over a reply and the master's Network having consumed it - used only to set a
+    case aside when the machine was too slow for the time-out (never as a verdict)."""
+
+    def __init__(self, hub, latency):
+        self.hub = hub
+        self.latency = latency
+        self.max_delay = 0.0
+        self.errors = []
+        self.q = _queue.Queue()
+        self.th = threading.Thread(target=self._run, daemon=True)
+        self.th.start()
+
+    def route(self, fr):
+        self.q.put((_time.monotonic(), fr))
+
+    def _run(self):
+        while True:
+            item = self.q.get()
+            try:
+                if item is None:
+                    return
+                t0, fr = item
+                wait = t0 + self.latency - _time.monotonic()
+                if wait > 0:
+                    _time.sleep(wait)
+                self.hub.route(fr)
+                self.max_delay = max(self.max_delay, _time.monotonic() - t0)
+            except BaseException as e:      # a bug of the harness, never a verdict
+                self.errors.append(e)
+            finally:
+                self.q.task_done()
+
+    def drain(self):
+        self.q.join()
+
+    def close(self):
+        self.q.put(None)
+        self.th.join()
+
+
 class Rig:
-    def __init__(self, s):
+    def __init__(self, s, others=(), latency=None, timeout=0):
         self.hub = Hub()
-        self.slave = RefLssSlave(s["id"], s.get("nid", UNCONFIGURED), s.get("state", WAITING))
-        self.slave.mute = not s.get("present", True)
-        self.slave.attach(self.hub)
+        self.delay = _DelayLine(self.hub, latency) if latency is not None else None
+        self.slaves = []
+        self.slave = None                 # the device added last (for the description of a call)
+        for spec in [s] + list(others):
+            self.add(spec)
         self.net, self.port = self.hub.attach("master")
         self.lss = self.net.lss
-        self.lss.RESPONSE_TIMEOUT = 0
+        self.lss.RESPONSE_TIMEOUT = timeout
+
+    def add(self, spec):
+        sl = RefLssSlave(spec["id"], spec.get("nid", UNCONFIGURED), spec.get("state", WAITING))
+        sl.fs_pos = spec.get("pos", 0)    # LSSPos left behind by fastscan traffic witnessed earlier
+        sl.mute = not spec.get("present", True)
+        sl.attach(self.hub, name=f"lss-slave-{len(self.slaves)}")
+        if self.delay is not None:
+            sl.hub = self.delay
+        self.slaves.append(sl)
+        self.slave = sl
+        return sl
+
+    def settle(self):
+        """Every reply the devices have produced so far is on the bus and consumed."""
+        if self.delay is not None:
+            self.delay.drain()
+            if self.delay.errors:
+                raise RuntimeError(f"harness: the delay line failed: {self.delay.errors[0]!r}")
+
+    def close(self):
+        if self.delay is not None:
+            self.delay.close()
 
 
 def _call(L, lss, op):
@@ -197,34 +307,39 @@ def _expected_requests(op):
 
 
 def _step(L, rig, op, tag, D):
-    slave, lss = rig.slave, rig.lss
+    lss = rig.lss
+    mon = rig.slaves[0]          # has heard every frame since the case began: decodes / validates for all
     k = op["op"]
 
     def bad(kind, detail):
         D.append(Discrepancy(f"C18/{k}/{kind}", f"{tag}: {detail}"))
 
-    n_req, n_err = len(slave.requests), len(slave.errors)
-    n_sent, n_del = len(rig.port.sent), len(slave.delivered)
-    state0 = slave.state
-    takes_part = (not slave.mute) and state0 == WAITING and slave.unconfigured()
-    slave.fault = op.get("fault")
-    slave.fault_used = False
+    n_req, n_err = len(mon.requests), len(mon.errors)
+    n_sent, n_log = len(rig.port.sent), len(rig.hub.log)
+    # the devices on the bus as the call finds them: (device, LSS state, unconfigured)
+    live0 = [(sl, sl.state, sl.unconfigured()) for sl in rig.slaves if not sl.mute]
+    for sl in rig.slaves:
+        sl.fault = op.get("fault")
+        sl.fault_used = False
     result, exc = None, None
     try:
         result = _call(L, lss, op)
     except Exception as e:  # judged below
         exc = e
-    slave.fault = None
-    delivered = slave.delivered[n_del:]          # what the slave put on the bus during the call
+    rig.settle()
+    for sl in rig.slaves:
+        sl.fault = None
+    # what the devices put on the bus during the call (with a latency: in answer to it)
+    delivered = [f.data for f in rig.hub.log[n_log:] if f.can_id == SLAVE_ID and f.src is not rig.port]
     sent = rig.port.sent[n_sent:]
-    reqs = slave.requests[n_req:]
+    reqs = mon.requests[n_req:]
 
     # ---- (c) framing -------------------------------------------------------
     for fr in sent:
         if fr.can_id != MASTER_ID or fr.extended or fr.remote or len(fr.data) != 8:
             bad("frame", f"master sent {fr!r} (want an 8-byte data frame on 0x7E5)")
             return
-    for kind, detail in slave.errors[n_err:]:
+    for kind, detail in mon.errors[n_err:]:
         D.append(Discrepancy(f"C18/{k}/frame/{kind}", f"{tag}: not a CiA 305 request: {detail}"))
         return
     want_reqs = _expected_requests(op)
@@ -239,7 +354,7 @@ def _step(L, rig, op, tag, D):
     elif not any(r[0] == "fastscan" for r in reqs) or len(reqs) != len(sent):
         bad("request", f"fast_scan sent no fastscan request, or frames that are no LSS requests: {reqs[:6]}")
         return
-    if rig.slave.port.notify_errors or rig.port.notify_errors:
+    if rig.port.notify_errors:
         bad("notify-raises", f"{rig.port.notify_errors[:1]}")
         return
 
@@ -258,7 +373,9 @@ def _step(L, rig, op, tag, D):
         except Exception:
             bad("result-shape", f"fast_scan returned {result!r}")
             return
-        if takes_part:
+        parts = [sl for sl, st0, unconf in live0 if st0 == WAITING and unconf]
+        if len(parts) == 1:
+            slave = parts[0]
             if not ok:
                 bad("not-found", f"returned {result!r} although slave {_hexid(slave.identity)} takes part "
                                  f"({len(reqs)} requests, {len(delivered)} answers)")
@@ -268,27 +385,35 @@ def _step(L, rig, op, tag, D):
             elif slave.state != CONFIGURATION:
                 bad("slave-state", f"scan succeeded but the slave is still in waiting state (LSSPos "
                                    f"{slave.fs_pos}); last request {reqs[-1]}")
-        else:
-            # no slave, or one that was not waiting / not unconfigured when the call began: the property
-            # promises nothing for it - but a success must still be a real one
+        elif not parts:
+            # no slave, or only devices that were not waiting / not unconfigured when the call began: the
+            # property promises nothing for them - but a success must still be a real one
+            known = [sl.identity for sl, _, _ in live0] or [mon.identity]
             if ok and not delivered:
                 bad("phantom", f"returned {result!r} although nobody answered")
-            elif ok and (ids is None or [int(x) for x in ids] != slave.identity):
+            elif ok and (ids is None or [int(x) for x in ids] not in known):
                 bad("identity", f"found {_hexid(ids) if ids is not None else None}, the slave that answered is "
-                                f"{_hexid(slave.identity)}")
-            elif not ok and slave.state != state0 and all(r[0] == "fastscan" for r in reqs):
+                                f"{' / '.join(_hexid(i) for i in known)}")
+            elif not ok and all(r[0] == "fastscan" for r in reqs) \
+                    and any(sl.state != st0 for sl, st0, _ in live0):
                 bad("slave-state", "a slave that takes no part changed state")
+        else:
+            # two or more unconfigured devices: outside "the one unconfigured device"; only a success
+            # that names none of them is judged
+            if ok and (ids is None or [int(x) for x in ids] not in [sl.identity for sl in parts]):
+                bad("identity", f"found {_hexid(ids) if ids is not None else None}, the devices taking part "
+                                f"are {' / '.join(_hexid(sl.identity) for sl in parts)}")
         return
 
     # ---- (e) selective switch ----------------------------------------------------
     if k == "selective":
-        match = (not slave.mute) and state0 == WAITING and list(op["id"]) == slave.identity
+        match = [sl for sl, st0, _ in live0 if st0 == WAITING and list(op["id"]) == sl.identity]
         if match:
             if exc is not None:
                 bad("raises", f"addressed slave confirmed with {[d.hex() for d in delivered]} but: {exc}")
             elif result is not True:
                 bad("not-confirmed", f"returned {result!r} although the slave confirmed")
-            elif slave.state != CONFIGURATION:
+            elif any(sl.state != CONFIGURATION for sl in match):
                 bad("slave-state", "slave not in configuration state")
         else:
             if exc is None and result:
@@ -299,13 +424,21 @@ def _step(L, rig, op, tag, D):
     if k in ("global", "activate", "identify", "identify_nc"):
         if exc is not None:
             bad("raises", f"unconfirmed service raised LssError: {exc}")
-        elif k == "global" and not slave.mute and slave.state != op["mode"]:
-            bad("slave-state", f"slave state {slave.state} after switch state global {op['mode']}")
+        elif k == "global":
+            for sl, _, _ in live0:
+                if sl.state != op["mode"]:
+                    bad("slave-state", f"slave state {sl.state} after switch state global {op['mode']}")
+                    break
         return
 
     # ---- (d) confirmed services -----------------------------------------------------
+    conf = [sl for sl, st0, _ in live0 if st0 == CONFIGURATION]
+    if len(conf) > 1:
+        return      # CiA 305: these services need exactly one device in configuration state
     cs = REQ_CS[k]
     reply = delivered[0] if delivered else None
+    if reply is not None and not conf:
+        raise RuntimeError(f"harness: answer {reply.hex()} although no device is in configuration state")
     if reply is None:
         why = "silence"
     elif reply[0] != cs:
@@ -323,7 +456,7 @@ def _step(L, rig, op, tag, D):
         bad("raises", f"slave answered {reply.hex()} but: {exc}")
         return
     if k in INQ_PART:
-        want = slave.active_nid if k == "inq_node" else slave.identity[INQ_PART[k]]
+        want = conf[0].active_nid if k == "inq_node" else conf[0].identity[INQ_PART[k]]
         if result != want or isinstance(result, bool):
             bad("value", f"returned {result!r}, slave answered {want} ({reply.hex()})")
     elif result is not None:
@@ -368,6 +501,8 @@ def _op_class(s, op):
             return "scan/nobody/slave-has-node-id"
         if s.get("state", WAITING) != WAITING:
             return "scan/nobody/slave-in-configuration-state"
+        if s.get("pos"):
+            return "scan/stale-lsspos/" + id_class(s["id"])
         return "scan/" + id_class(s["id"])
     if k == "selective":
         if not s.get("present", True):
@@ -497,38 +632,63 @@ def run_case(case) -> Outcome:
     L = _prepare()
     s = case["slave"]
     ops = case["ops"]
-    rig = Rig(s)
+    latency = case.get("latency_ms")
+    timeout = case.get("timeout_ms", 0) / 1000.0
+    rig = Rig(s, case.get("others", ()), None if latency is None else latency / 1000.0, timeout)
     D = []
-    nontrivial = False
-    s_now = dict(s)
-    for i, op in enumerate(ops):
-        if op["op"] == "new_device":
-            # the device handled so far is done (it keeps quiet from now on); another unconfigured
-            # device with its own identity is connected to the same bus, same master object
-            rig.slave.mute = True
-            rig.slave = RefLssSlave(op["id"], UNCONFIGURED, WAITING)
-            rig.slave.attach(rig.hub)
-            nontrivial = True
-            continue
-        tag = f"call {i} {_describe(op)} (slave {_hexid(rig.slave.identity)} nid {rig.slave.active_nid} " \
-              f"state {rig.slave.state}{' MUTE' if rig.slave.mute else ''})"
-        nontrivial = nontrivial or _nontrivial_op(s, op)
-        _step(L, rig, op, tag, D)
-        if D:
-            break
-        if rig.slave.withheld:
-            rig.slave.release_withheld()      # the late reply arrives after the call gave up
+    nontrivial = bool(case.get("others")) or latency is not None
+    try:
+        for i, op in enumerate(ops):
+            if op["op"] == "new_device":
+                # another unconfigured device with its own identity is connected to the same bus, same
+                # master object; the devices handled so far are done and keep quiet from now on (default)
+                # or stay what they are ("keep")
+                if not op.get("keep"):
+                    for sl in rig.slaves:
+                        sl.mute = True
+                rig.add({"id": op["id"], "pos": op.get("pos", 0)})
+                nontrivial = True
+                continue
+            tag = f"call {i} {_describe(op)} ({_describe_bus(rig)})"
+            nontrivial = nontrivial or _nontrivial_op(s, op)
+            _step(L, rig, op, tag, D)
+            if D:
+                break
+            if any(sl.withheld for sl in rig.slaves):
+                for sl in rig.slaves:
+                    sl.release_withheld()     # the late reply arrives after the call gave up
+                rig.settle()
+    finally:
+        rig.close()
+    if D and rig.delay is not None and rig.delay.max_delay > timeout / 2:
+        # the verdict would rest on the time-out: an answer took more than half of RESPONSE_TIMEOUT to get
+        # through on this (loaded) machine
+        return Outcome(excluded="latency: reply delivery took longer than RESPONSE_TIMEOUT/2 on this machine")
+    live = [sl for sl in rig.slaves if not sl.mute]
     if case.get("klass"):
         klass = case["klass"]
     elif len(ops) == 1:
-        klass = _op_class(s_now, ops[0])
+        klass = _op_class(dict(s), ops[0])
+        if case.get("others"):
+            klass += "/other-devices-on-the-bus"
     else:
         nf = sum(1 for o in ops if o.get("fault"))
-        entered = (not rig.slave.mute) and any(t[1] == CONFIGURATION and t[2] != "switch state global"
-                                                for t in rig.slave.transitions)
+        entered = any(t[1] == CONFIGURATION and t[2] != "switch state global"
+                      for sl in live for t in sl.transitions)
         klass = ("history/" + ("no-fault" if nf == 0 else "faults1" if nf == 1 else "faults2+")
-                 + ("/scan-or-selective-confirmed" if entered else ""))
+                 + ("/scan-or-selective-confirmed" if entered else "")
+                 + ("/several-devices" if case.get("others") else ""))
+    if latency is not None and not klass.startswith("latency/"):
+        klass = "latency/" + klass
     return Outcome(nontrivial, klass, D)
+
+
+def _describe_bus(rig):
+    out = []
+    for sl in rig.slaves:
+        out.append(f"slave {_hexid(sl.identity)} nid {sl.active_nid} state {sl.state} LSSPos {sl.fs_pos}"
+                   f"{' MUTE' if sl.mute else ''}")
+    return "; ".join(out[-3:])
 
 
 def _describe(op):
@@ -722,9 +882,138 @@ def enum_cases(thorough):
                 yield {"slave": slave(state=st0), "ops": [{"op": "global", "mode": mode, "alias": alias}]}
     for d in activate_delays(thorough):
         yield {"slave": slave(state=conf), "ops": [{"op": "activate", "delay": d}]}
+    yield from lsspos_cases(thorough)
+    yield from listening_cases(thorough)
+    yield from several_answers_cases()
+    yield from latency_cases(thorough)
     if thorough:
         for ident in pair_identities():
             yield {"slave": slave(ident), "ops": [{"op": "fast_scan"}]}
+
+
+def lsspos_cases(thorough):
+    """(a) the device was left at LSSPos 1..3 by fastscan traffic it witnessed earlier (another device was
+    being found, a scan was broken off): still a conformant unconfigured slave in waiting state."""
+    few = [BASE_ID, [0, 0, 0, 0], [ALL1] * 4, [1, 0, 0, 0], [0, 0, 0, 0x80000000], [0, 1, 0, 0],
+           [0x80000001, 0x01020304, 0xFFFFFFFE, 0x7FFFFFFF], [0xDEADBEEF, 0, ALL1, 0x00010000],
+           [ALL1, ALL1, ALL1, ALL1 ^ 1], [0x7FFFFFFF, ALL1, ALL1, ALL1]]
+    for pos in (1, 2, 3):
+        for ident in (boundary_identities() if thorough else few):
+            yield {"slave": dict(slave(ident), pos=pos), "ops": [{"op": "fast_scan"}]}
+        yield {"slave": dict(slave(), pos=pos), "klass": "scan/stale-lsspos/repeated",
+               "ops": [{"op": "fast_scan"}, {"op": "global", "mode": 0}, {"op": "fast_scan"}]}
+        yield {"slave": dict(slave(), pos=pos), "klass": "commission/fast-scan/stale-lsspos",
+               "ops": [{"op": "fast_scan"}, {"op": "inq_vendor"}, {"op": "inq_product"}, {"op": "inq_revision"},
+                       {"op": "inq_serial"}, {"op": "inq_node"}, {"op": "cfg_node", "nid": 17 + pos},
+                       {"op": "store"}, {"op": "global", "mode": 0}]}
+        # a device that is not found by the scan (it has a node-id) keeps its position, whatever it is
+        yield {"slave": dict(slave(nid=5), pos=pos), "ops": [{"op": "fast_scan"}]}
+
+
+def _variant(ident, part, n):
+    out = list(ident)
+    out[part] = (out[part] ^ (0x10 << (n % 24))) & ALL1
+    return out
+
+
+def listening_cases(thorough):
+    """Commissioning loop of doc/lss.rst with all devices connected from the start: while one device is
+    being found the other unconfigured ones follow the scan as far as their identity agrees (their LSSPos
+    advances); after the found one got its node-id, the next fast_scan has ONE participant again."""
+    commission = lambda nid: [{"op": "fast_scan"}, {"op": "inq_serial"}, {"op": "cfg_node", "nid": nid},
+                              {"op": "store"}, {"op": "global", "mode": 0}]
+    bases = [BASE_ID, [0x00ABCDEF, 1, 2, 3]] + ([[ALL1] * 4, [0, 0, 0, 0], [0x80000000, 0, ALL1, 1]]
+                                                if thorough else [])
+    n = 0
+    for base in bases:
+        for share in range(4):               # number of leading parts the two identities have in common
+            n += 1
+            other = _variant(base, share, n)
+            for a, b in ((base, other), (other, base)):
+                yield {"slave": slave(a), "others": [slave(b)], "klass": "commission/two-devices-listening",
+                       "ops": commission(5) + commission(6) + [{"op": "fast_scan"}]}
+    # three devices: two share vendor/product/revision, the third only the vendor
+    a = BASE_ID
+    b, c = _variant(a, 3, 2), _variant(a, 1, 9)
+    for first, rest in ((a, [b, c]), (b, [c, a]), (c, [a, b])):
+        yield {"slave": slave(first), "others": [slave(x) for x in rest],
+               "klass": "commission/three-devices-listening",
+               "ops": commission(5) + commission(6) + commission(7) + [{"op": "fast_scan"}]}
+    # a configured device and one in configuration state elsewhere on the bus do not disturb the scan
+    yield {"slave": slave(a), "others": [slave(b, nid=9), slave(c, nid=10)],
+           "klass": "commission/configured-devices-on-the-bus", "ops": commission(5) + [{"op": "fast_scan"}]}
+
+
+def several_answers_cases():
+    """(d)/(e)/(a) One identify request is answered by several devices; none of these answers is read by
+    the identify call, so more than one unread frame is queued when the next service starts.  That service
+    must still get the answer of the one device in configuration state."""
+    conf = CONFIGURATION
+    a = BASE_ID
+    b = [a[0], a[1], a[2], a[3] + 1]            # same vendor/product/revision: configured, waiting state
+    c = [a[0], a[1], a[2] + 1, 7]               # same vendor/product: unconfigured, waiting state
+    d = [a[0], a[1], 0, 0xFFFFFFF0]
+    rng = [a[0], a[1], 0, ALL1, 0, ALL1]
+    for n, svc in enumerate(SERVICES):
+        for others in ([slave(b, nid=5)], [slave(b, nid=5), slave(c)], [slave(b, nid=5), slave(c), slave(d, nid=6)]):
+            yield {"slave": slave(a, state=conf), "others": others, "klass": "stale/answers-of-several-devices",
+                   "ops": [{"op": "identify", "args": rng}, svc_op(svc, n), {"op": "identify", "args": rng},
+                           svc_op(svc, n + 1)]}
+        yield {"slave": slave(a, state=conf), "others": [slave(c), slave(d)],
+               "klass": "stale/answers-of-several-devices",
+               "ops": [{"op": "identify_nc"}, svc_op(svc, n), {"op": "identify_nc"}, {"op": "identify", "args": rng},
+                       svc_op(svc, n + 2)]}
+    tail = [{"op": "inq_node"}, {"op": "identify", "args": rng}, {"op": "inq_serial"},
+            {"op": "identify", "args": rng}, {"op": "cfg_node", "nid": 7}, {"op": "identify", "args": rng},
+            {"op": "store"}, {"op": "inq_vendor"}]
+    for others in ([slave(b, nid=5)], [slave(b, nid=5), slave(d, nid=6)]):
+        yield {"slave": slave(a, nid=3), "others": others, "klass": "stale/answers-of-several-devices",
+               "ops": [{"op": "identify", "args": rng}, {"op": "selective", "id": a}] + tail}
+        yield {"slave": slave(a), "others": others, "klass": "stale/answers-of-several-devices",
+               "ops": [{"op": "identify", "args": rng}, {"op": "fast_scan"}] + tail}
+
+
+def _sparse_identity(n):
+    """2..4 one-bits, spread over the four parts (every 1 bit of the address costs the scan one full
+    RESPONSE_TIMEOUT of real time), n-th member of a fixed family."""
+    bits = {(7 * n + 3) % 128, (37 * n + 64) % 128, (11 * n * n + 31) % 128}
+    if n % 3 == 0:
+        bits.add(32 * (n % 4))            # bit 0 of a part: the extra confirmation request
+    return split128(sum(1 << b for b in bits))
+
+
+def latency_cases(thorough):
+    """Every service with the answers arriving asynchronously, `latency_ms` after the request, well below
+    RESPONSE_TIMEOUT (`timeout_ms`)."""
+    T = 250
+    tail = [{"op": "inq_vendor"}, {"op": "inq_product"}, {"op": "inq_revision"}, {"op": "inq_serial"},
+            {"op": "inq_node"}, {"op": "cfg_node", "nid": 17}, {"op": "cfg_bit", "idx": 2}, {"op": "store"},
+            {"op": "activate", "delay": 500}, {"op": "global", "mode": 0}, {"op": "inq_node"}]
+    scans = [(12, [0x80000000, 0x00000001, 0x00010000, 0], 0), (2, [0, 0x00400000, 2, 0x80000001], 3)]
+    if thorough:
+        scans += [((1, 5, 12, 30)[n % 4], _sparse_identity(n), n % 4) for n in range(1, 31)]
+    for lat, ident, pos in scans:
+        yield {"latency_ms": lat, "timeout_ms": T, "slave": dict(slave(ident), pos=pos),
+               "klass": "latency/commission/fast-scan", "ops": [{"op": "fast_scan"}] + tail[3:8]}
+    for n, lat in enumerate((1, 12, 30) + ((3, 60) if thorough else ())):
+        ident = [BASE_ID, [0x80000001, 0x01020304, 0xFFFFFFFE, 0x7FFFFFFF], [1, 2, 3, 4]][n % 3]
+        yield {"latency_ms": lat, "timeout_ms": T, "slave": slave(ident, nid=n + 1),
+               "klass": "latency/commission/selective", "ops": [{"op": "selective", "id": ident}] + tail}
+        # refusals and wrong answers arrive late as well
+        yield {"latency_ms": lat, "timeout_ms": T, "slave": slave(ident, state=CONFIGURATION),
+               "klass": "latency/faults",
+               "ops": [{"op": "cfg_node", "nid": 200}, {"op": "cfg_bit", "idx": 5},
+                       {"op": "store", "fault": {"kind": "err", "code": 2, "spec": 0}},
+                       {"op": "inq_node", "fault": {"kind": "cs", "cs": 0x5D}},
+                       {"op": "cfg_node", "nid": 9, "fault": {"kind": "silent"}}, {"op": "inq_serial"}]}
+    # answers of several devices to one identify request trickle in, then a confirmed service
+    a = BASE_ID
+    rng = [a[0], a[1], 0, ALL1, 0, ALL1]
+    yield {"latency_ms": 5, "timeout_ms": T, "slave": slave(a, nid=3),
+           "others": [slave([a[0], a[1], a[2], a[3] + 1], nid=5)], "klass": "latency/several-devices",
+           "ops": [{"op": "identify", "args": rng}, {"op": "selective", "id": a}, {"op": "inq_node"},
+                   {"op": "identify", "args": rng}, {"op": "inq_serial"}, {"op": "identify", "args": rng},
+                   {"op": "cfg_node", "nid": 7}, {"op": "store"}]}
 
 
 # Hypothesis ---------------------------------------------------------------------
@@ -774,6 +1063,43 @@ def faults(svc):
     return st.one_of(choices)
 
 
+def _draw_op(draw, idents):
+    k = draw(st.sampled_from(["fast_scan", "selective", "global", "global", "activate", "identify",
+                              "identify_nc"] + SERVICES * 3))
+    ident = idents[0] if len(idents) == 1 else draw(st.sampled_from(idents))
+    if k == "fast_scan":
+        op = {"op": k}
+    elif k == "selective":
+        asked = list(ident)
+        if draw(st.integers(0, 4)) == 0:
+            asked[draw(st.integers(0, 3))] ^= 1 << draw(st.integers(0, 31))
+        op = {"op": k, "id": asked}
+    elif k == "global":
+        op = {"op": k, "mode": draw(st.integers(0, 1)), "alias": draw(st.integers(0, 3)) == 0}
+    elif k == "activate":
+        op = {"op": k, "delay": draw(st.one_of(st.integers(0, 65535), st.sampled_from([0, 1, 255, 256, 65535])))}
+    elif k == "identify":
+        if draw(st.booleans()):
+            lo_r, hi_r = sorted([draw(u32s()), draw(u32s())])
+            lo_s, hi_s = sorted([draw(u32s()), draw(u32s())])
+            args = [ident[0], ident[1], lo_r, hi_r, lo_s, hi_s]
+        else:
+            args = [draw(u32s()) for _ in range(6)]
+        op = {"op": k, "args": args}
+    elif k == "identify_nc":
+        op = {"op": k}
+    else:
+        if k == "cfg_node":
+            op = {"op": k, "nid": draw(st.one_of(st.integers(1, 127), st.integers(0, 255)))}
+        elif k == "cfg_bit":
+            op = {"op": k, "idx": draw(st.one_of(st.integers(0, 9), st.integers(0, 255)))}
+        else:
+            op = {"op": k}
+        if draw(st.integers(0, 2)) == 0:
+            op["fault"] = draw(faults(k))
+    return op
+
+
 @st.composite
 def history(draw):
     ident = draw(identities())
@@ -783,40 +1109,46 @@ def history(draw):
     s = slave(ident, nid, state, present)
     ops = []
     for _ in range(draw(st.integers(2, 10))):
-        k = draw(st.sampled_from(["fast_scan", "selective", "global", "global", "activate", "identify",
-                                  "identify_nc"] + SERVICES * 3))
-        if k == "fast_scan":
-            op = {"op": k}
-        elif k == "selective":
-            asked = list(ident)
-            if draw(st.integers(0, 4)) == 0:
-                asked[draw(st.integers(0, 3))] ^= 1 << draw(st.integers(0, 31))
-            op = {"op": k, "id": asked}
-        elif k == "global":
-            op = {"op": k, "mode": draw(st.integers(0, 1)), "alias": draw(st.integers(0, 3)) == 0}
-        elif k == "activate":
-            op = {"op": k, "delay": draw(st.one_of(st.integers(0, 65535), st.sampled_from([0, 1, 255, 256, 65535])))}
-        elif k == "identify":
-            if draw(st.booleans()):
-                lo_r, hi_r = sorted([draw(u32s()), draw(u32s())])
-                lo_s, hi_s = sorted([draw(u32s()), draw(u32s())])
-                args = [ident[0], ident[1], lo_r, hi_r, lo_s, hi_s]
-            else:
-                args = [draw(u32s()) for _ in range(6)]
-            op = {"op": k, "args": args}
-        elif k == "identify_nc":
-            op = {"op": k}
-        else:
-            if k == "cfg_node":
-                op = {"op": k, "nid": draw(st.one_of(st.integers(1, 127), st.integers(0, 255)))}
-            elif k == "cfg_bit":
-                op = {"op": k, "idx": draw(st.one_of(st.integers(0, 9), st.integers(0, 255)))}
-            else:
-                op = {"op": k}
-            if draw(st.integers(0, 2)) == 0:
-                op["fault"] = draw(faults(k))
-        ops.append(op)
+        ops.append(_draw_op(draw, [ident]))
     return {"slave": s, "ops": ops}
+
+
+@st.composite
+def random_scan_lsspos(draw):
+    ident = draw(identities())
+    return {"slave": dict(slave(ident), pos=draw(st.integers(1, 3))), "ops": [{"op": "fast_scan"}]}
+
+
+@st.composite
+def bus_history(draw):
+    """Histories on a bus with two or three devices: identities that agree in 0..4 leading parts (so that
+    the devices follow each other's scan and answer the same identify requests), any LSSPos to begin with."""
+    ident = draw(identities())
+    idents = [ident]
+    others = []
+    for j in range(draw(st.integers(1, 2))):
+        share = draw(st.integers(0, 4))
+        oid = list(ident[:min(share, 3)]) + [draw(u32s()) for _ in range(4 - min(share, 3))]
+        if share == 4:
+            oid[3] = ident[3] ^ (1 << draw(st.integers(0, 31)))
+        while oid in idents:                  # identities are unique (CiA 305)
+            oid[3] = (oid[3] + 1) & ALL1
+        idents.append(oid)
+        o = slave(oid, draw(st.sampled_from([UNCONFIGURED, UNCONFIGURED, 5 + j, 127])),
+                  draw(st.sampled_from([WAITING] * 5 + [CONFIGURATION])))
+        o["pos"] = draw(st.integers(0, 3))
+        others.append(o)
+    nid = draw(st.sampled_from([UNCONFIGURED, UNCONFIGURED, UNCONFIGURED, 1, 3]))
+    s = slave(ident, nid, draw(st.sampled_from([WAITING, WAITING, CONFIGURATION])))
+    s["pos"] = draw(st.integers(0, 3))
+    ops = []
+    for _ in range(draw(st.integers(2, 10))):
+        if draw(st.integers(0, 5)) == 0:
+            # the identify request every device of this vendor/product answers
+            ops.append({"op": "identify", "args": [ident[0], ident[1], 0, ALL1, 0, ALL1]})
+        else:
+            ops.append(_draw_op(draw, idents))
+    return {"slave": s, "others": others, "ops": ops}
 
 
 def search(ctx):
@@ -826,10 +1158,17 @@ def search(ctx):
                   + ("/every pair of bits" if thorough else "")
                   + " for scan and selective switch; node-ids 0..255; bit-timing indexes 0..255; error codes "
                     "0..255 x 3 services; wrong cs 0..255 x 8 services; silence/late per service; switch delays "
-                  + ("0..65535" if thorough else "(boundary set)"))
+                  + ("0..65535" if thorough else "(boundary set)")
+                  + "; initial LSSPos 1..3 x " + ("every boundary identity" if thorough else "10 identities")
+                  + "; two/three unconfigured devices listening to each other's scan (0..3 leading identity "
+                    "parts in common, both orders); 8 services after identify requests answered by 2..4 devices; "
+                    "reply latency 1..60 ms against RESPONSE_TIMEOUT 250 ms for scan / selective / every "
+                    "confirmed service / faults")
     ctx.enumerate(iter([{"fam": "virtual", "slave": {"id": [0x12345678, 0x9ABCDEF0, 1, 0xFFFFFFFF]}, "phases": 2},
                         {"fam": "virtual", "slave": {"id": [1, 2, 3, 4]}, "phases": 3}]),
                   "inquire services over a python-can virtual bus across disconnect / connect")
     ctx.hypothesis(random_scan(), 6000 if thorough else 2000, salt=1)
     ctx.hypothesis(random_selective(), 3000 if thorough else 500, salt=2)
     ctx.hypothesis(history(), 12000 if thorough else 2500, salt=3)
+    ctx.hypothesis(random_scan_lsspos(), 1500 if thorough else 300, salt=4)
+    ctx.hypothesis(bus_history(), 6000 if thorough else 1200, salt=5)
